@@ -100,6 +100,11 @@ package model
 //@   assert-at call append #10 : !(len(token) == 6 && shasprefix(token, "<0x") && shassuffix(token, ">"))
 // Decode turns every U+2581 into a space, so text must not contain U+2581 itself
 //@   assert-at call ReplaceAll #1 : !scontains(frag.value, spmWhitespaceSep)
+// byte fallback of ONE piece: it contributes at most one id per byte of that piece (the buffer
+// starts empty for every piece) - otherwise ids of earlier pieces are emitted again and the text
+// does not round-trip (added after seeded change C20-seed2)
+//@   loop 8 invariant len(result) <= rangeindex + 1
+//@   assert-at call append #12 : len(result) <= len(token)
 
 //@ func (SentencePieceModel).Decode
 //@   requires forall k int :: 0 <= k && k < len(ids) ==> 0 <= ids[k] && ids[k] < len(spm.vocab.Values)
